@@ -273,7 +273,7 @@ func rotationProjects(c *core.Ctx, n int) []*gen.Project {
 		}
 		// fixed sowing dates with automatic harvest: the rotation file's harvest date lies AFTER the latest harvest date of
 		// the table (the table's date is the one that binds)
-		lateRot := i%5 == 0 && p.Cfg.AutoHarv == 1
+		lateRot := i%5 == 0 && p.Cfg.AutoHarv == 1 && !narrowNext // (narrowNext has its own dates)
 		if lateRot {
 			for k := 1; k < len(p.Rotation); k++ {
 				y, _, _ := gen.YMD(p.Rotation[k].Sow)
